@@ -11,6 +11,7 @@ use std::collections::BTreeMap;
 use std::fmt::Write as _;
 use syn::punctuated::Punctuated;
 use syn::spanned::Spanned;
+use quote::ToTokens;
 use syn::visit::{self, Visit};
 use syn::{Expr, Stmt, Token};
 
@@ -392,6 +393,21 @@ impl<'a, 'ast> Visit<'ast> for Rewriter<'a> {
     fn visit_stmt(&mut self, st: &'ast Stmt) {
         let (ss, _) = self.src.range(st.span());
         if self.in_skip(ss) {
+            return;
+        }
+        // R1: statements guarded by #[cfg(desync_verif)] are verification hooks, not part of the code
+        let attrs: &[syn::Attribute] = match st {
+            Stmt::Expr(Expr::Call(c), _) => &c.attrs,
+            Stmt::Expr(Expr::MethodCall(c), _) => &c.attrs,
+            Stmt::Expr(Expr::Block(c), _) => &c.attrs,
+            Stmt::Local(l) => &l.attrs,
+            Stmt::Macro(m) => &m.attrs,
+            _ => &[],
+        };
+        if attrs.iter().any(|a| a.path().is_ident("cfg") && a.meta.to_token_stream().to_string().contains("desync_verif")) {
+            let (s, e) = self.src.range(st.span());
+            self.edit(s, e, String::new(), 0);
+            self.skip_ranges.push((s, e));
             return;
         }
         // whole-statement REPLACE
